@@ -226,7 +226,7 @@ def run(ctx):
         ctx.case(("corpus", p))
         if not replay(ctx, data):
             ctx.violation("corpus case %s fails" % os.path.basename(p), data)
-    n = ctx.budget(60, 400)
+    n = ctx.budget(60, 200)
     cases = [(label, 0, 0) for label in us.DIAGRAMS] + [("TestClassDiagram", -1, 0)]
     for i in range(n):
         cases.append((us.DIAGRAMS[i % 2] if i % 3 else "TestClassDiagram", ctx.rng.randint(1, 1 << 30), ctx.rng.randint(1, 4)))
